@@ -64,6 +64,8 @@ type World struct {
 	// FirstBlockTime, when set, is the timestamp of block 1 of every branch
 	// leaving genesis (default: one hour before now).
 	FirstBlockTime time.Time
+
+	nextTS *time.Time // one-shot timestamp of the next block mined (ExtendAt)
 }
 
 // Params returns a private copy of the regression-test parameters (cheap
@@ -293,6 +295,11 @@ func (w *World) mineOn(parent *Blk, id string) *Blk {
 // genesis jumps to one hour before now so that the client regards the chain as
 // current and growth never reaches the two-hours-ahead limit.
 func (w *World) nextTime(parent *Blk) time.Time {
+	if w.nextTS != nil {
+		t := time.Unix(w.nextTS.Unix(), 0)
+		w.nextTS = nil
+		return t
+	}
 	if parent.Height == 0 {
 		if !w.FirstBlockTime.IsZero() {
 			return time.Unix(w.FirstBlockTime.Unix(), 0)
@@ -320,6 +327,13 @@ func (w *World) Extend(tip *Blk, n int, letter string) *Blk {
 		tip = w.mineOn(tip, fmt.Sprintf("%s%d", letter, tip.Height+1))
 	}
 	return tip
+}
+
+// ExtendAt mines one valid block on tip with the given timestamp (it must lie
+// after the median time of the last 11 blocks; it may lie in the future).
+func (w *World) ExtendAt(tip *Blk, letter string, ts time.Time) *Blk {
+	w.nextTS = &ts
+	return w.Extend(tip, 1, letter)
 }
 
 // SetHonest moves the honest tip (after Extend).
